@@ -26,5 +26,15 @@ mod h {
         let hi = (sz + m) / 2.0;
         assert!(lo >= 0.0 && lo <= sz / 2.0);
         assert!(hi >= sz / 2.0 && hi <= sz);
+        assert!(hi >= 0.0 && lo <= sz);
+    }
+
+    /// A3 (centre): S/2 lies in [0, S] for S in [1, 2^20]
+    #[kani::proof]
+    fn cgr_centre_in_square() {
+        let s: u32 = kani::any();
+        kani::assume(s >= 1 && s <= (1 << 20));
+        let sz = s as f64;
+        assert!(sz / 2.0 >= 0.0 && sz / 2.0 <= sz);
     }
 }
